@@ -183,7 +183,13 @@ def finish(trial, fb, metric_names):
 # comparisons
 # ---------------------------------------------------------------------------
 def md_flat(md):
-  return {(tuple(ns), k): v for ns, k, v in md.all_items()}
+  """{(namespace tuple relative to md's current namespace, key): value}."""
+  out = {}
+  base = tuple(md.current_ns())
+  for ns in md.subnamespaces():
+    for k, v in md.abs_ns(base + tuple(ns)).items():
+      out[(tuple(ns), k)] = v
+  return out
 
 
 def params_py(s):
@@ -329,7 +335,8 @@ def feedback(n_values=1, infeasible=True, weights=(6, 1, 1, 2), inf0=True):
 
 @st.composite
 def steps(draw, n_values=1, infeasible=True, min_steps=3, max_steps=12,
-          paths=PATHS, p_restart=0.45, max_count=5, inf0=True):
+          paths=PATHS, p_restart=0.45, max_count=5, inf0=True, min_count=1,
+          eager=False):
   """Batch-size sequence x feedback x restart mask (with path per restart)."""
   n = draw(st.integers(min_steps, max_steps))
   # the mask style is drawn first so that "every step", "none" and sparse
@@ -338,9 +345,13 @@ def steps(draw, n_values=1, infeasible=True, min_steps=3, max_steps=12,
                                 'none']))
   out = []
   for i in range(n):
-    count = draw(st.integers(1, max_count))
-    fb = draw(st.lists(feedback(n_values, infeasible, inf0=inf0), min_size=0,
-                       max_size=8))
+    count = draw(st.integers(min_count, max_count))
+    if eager:  # most pending trials get completed: long histories with data
+      fb = draw(st.lists(feedback(n_values, infeasible, (12, 1, 1, 1),
+                                  inf0=inf0), min_size=4, max_size=8))
+    else:
+      fb = draw(st.lists(feedback(n_values, infeasible, inf0=inf0),
+                         min_size=0, max_size=8))
     if style == 'all':
       r = True
     elif style == 'none':
